@@ -15,6 +15,7 @@ class Tables:
         self.P = P
         ft = P.field_table(LANG_STRUCT)          # off -> (name, size)
         self.langs = {}
+        self.unterminated = []                   # strings that fill their storage without a terminating NUL
         for g in P.globals.values():
             if g['ty'] != '%' + LANG_STRUCT or g['decl']:
                 continue
@@ -39,7 +40,10 @@ class Tables:
             w = vals['words']
             if w['k'] != 'array':
                 raise AnalysisBroken('words of %s is not a constant array' % g['name'])
+            nu = len(self.unterminated)
             L.words = [self.cstr(e) for e in w['elems']]
+            L.unterminated = [i_ for i_, e in enumerate(w['elems']) if e['k'] == 'bytes' and bytes.fromhex(e['hex']).find(b'\0') < 0]
+            L.inline_rows = any(e['k'] == 'bytes' for e in w['elems'])
             self.langs[g['name']] = L
         # registry: a global array of pointers to language tables
         self.registry = None
@@ -57,8 +61,15 @@ class Tables:
         """bytes of the NUL-terminated string a constant pointer refers to (None for NULL)"""
         if v['k'] == 'zero':
             return None
+        if v['k'] == 'bytes':
+            # the string is stored inline (an array of char rows instead of an array of pointers)
+            b = bytes.fromhex(v['hex'])
+            n = b.find(b'\0')
+            if n < 0:
+                self.unterminated.append(b); return b
+            return b[:n]
         if v['k'] != 'gref':
-            raise AnalysisBroken('unexpected pointer constant %r' % (v,))
+            raise AnalysisBroken('unexpected pointer constant %r' % (str(v)[:120],))
         g = self.P.globals.get(v['name'])
         if g is None or 'init' not in g:
             raise AnalysisBroken('string constant %s has no initialiser' % v['name'])
